@@ -1,4 +1,5 @@
 """C07 - no call modifies caller data; results depend only on argument values."""
+import os
 import random
 
 import harness as H
@@ -200,6 +201,40 @@ def clause_pid(clause, e):
     return "C07" if clause[0] in ("caller_array_modified_by", "distance_value_depends_on_history", "refit_on_equal_data_gives_different_forest", "twin_full_state_differs", "twin_state_differs", "prediction_not_a_function_of_the_sample") else None
 
 
+def process_history_twins(rep, thorough):
+    """What a call returns does not depend on what the process did before - including what it did *first*.  Every session above lives
+    in this one interpreter, whose first use of each metric is whatever the first session happened to do; here fresh interpreters are
+    started, each with another first use of every registered metric (single-precision or integer vectors, directly or through a
+    model), and then asked the same float64 questions (lib/prochist.py).  The answers must be those of the interpreter with no
+    earlier use, bit for bit."""
+    import json
+    import subprocess
+    import sys
+
+    def ask(mode):
+        p = subprocess.run([sys.executable, os.path.join(H.VERIF, "lib", "prochist.py"), H.REPO, mode], capture_output=True, text=True, timeout=900,
+                           env=dict(os.environ, PYTHONHASHSEED="0", PYTHONDONTWRITEBYTECODE="1"))
+        line = [l for l in p.stdout.splitlines() if l.startswith("PROCHIST ")]
+        if p.returncode != 0 or not line:
+            raise H.MachineryError("prochist.py %s failed\n%s" % (mode, (p.stdout + p.stderr)[-1200:]))
+        return json.loads(line[0][9:])
+
+    from concurrent.futures import ThreadPoolExecutor
+
+    modes = ["none", "float32", "int"] + (["model-int", "model-float32"] if thorough else ["model-int"])
+    with ThreadPoolExecutor(max_workers=len(modes)) as ex:
+        got = dict(zip(modes, ex.map(ask, modes)))
+    base = got["none"]
+    n = 0
+    for mode in modes[1:]:
+        for nm, vals in got[mode].items():
+            n += len(vals)
+            if vals != base.get(nm):
+                k = next(i for i, (a, b) in enumerate(zip(vals, base[nm])) if a != b)
+                rep.violation("API:dist", "distance_value_depends_on_history", nm, {"history": "first use of the metric in the process: " + mode, "evaluation": k, "value": vals[k], "value_without_history": base[nm][k]})
+    rep.cov["process_history_twins"] = {"first_uses": modes[1:], "answers_compared": n}
+
+
 def run(tier, seed):
     rep = H.Report(PID, tier, seed, "model_checking")
     design(rep)
@@ -225,6 +260,7 @@ def run(tier, seed):
                 changed.append(s.names[k])
         rep.violation("API:" + e["op"], clause[0], clause[1].split(":")[0] if clause[0] == "caller_array_modified_by" else e["name"].split(":")[-1],
                       {"event_index": l, "event": {k: v for k, v in e.items() if k != "arr"}, "arrays_changed": changed, "history_prefix": [x["name"] for x in s.ev[max(0, l - 6): l]], "session": meta, "seed": rep.seed})
+    process_history_twins(rep, thorough)
     rep.cov["rule"] = "random API histories over a pool of shared arrays (zeros, negative zeros, tiny/huge, float32, C/F order, row views): all 47 metrics, fit/predict of the four models as refit twins (validation labels with and without class 0), get_distances (plain and normalised, also on a caller-owned pre-computed matrix); content id of every pooled array after every call"
     rep.assumptions = ["TLC", "content interning by SHA-256 (equal id <=> bit-equal)", "integer-dtype arrays are not pooled (a decorated metric would raise on them)"]
     return rep.finish()
